@@ -320,13 +320,16 @@ for _k, _v in EXTRA4.items():
         EXTRA[_k] = EXTRA[_k] + " Fourth round: " + _v
 for _k, _v in EXTRA.items():
     CLAIMS[_k]["text"] += " " + _v + (" (T1) In the functions of the property's anchor files no quantified test flipped between `all` and `any` on the same argument and no "
-                                       "parameter that was read is now ignored, relative to the instances confirmed on the reference tree. (T2) No mechanism function of the property (mechanism line "
-                                       "ranges of the property, functions carrying obligations of its rules, functions edited by confirmed seeded changes) differs from its confirmed form by a "
-                                       "small behaviour-changing edit (operator / bound / constant / name substitution, deleted statement, new early exit); larger rewrites are not comparable "
-                                       "and skipped. T1/T2 decide agreement with the confirmed reference, not the behaviour itself.")
+                                       "parameter that was read is now ignored, relative to the instances confirmed on the reference tree. (T2, observation only) small edits of the property's mechanism functions (operator / bound / constant / name substitution, deleted statement, new early exit) "
+                                       "relative to their confirmed form are printed as NOTE lines and recorded in the evidence; they do not change the exit code. T1 decides agreement with the "
+                                       "confirmed reference, not the behaviour itself.")
 _NF = (" All rules read the source in a comparison normal form (bnpsa/normalize.py): early exits as if/else with un-negated tests, locals and comprehension variables renamed back to "
        "the reference vocabulary, freshly introduced temporaries inlined and inlined reference temporaries re-introduced - every step a semantics-preserving rewrite, so renaming, "
        "temporaries and guard orientation do not change a verdict; statements that differ from the reference only in spelling (message wording, comparison orientation, emptiness tests, "
-       "list/tuple literals, annotations) are read in the reference spelling (bnpsa/spelling.py).")
+       "list/tuple literals, annotations) are read in the reference spelling (bnpsa/spelling.py); fresh aliases, consistently renamed private attributes, freshly extracted straight-line helpers and "
+       "new optional parameters at their default value are folded back first. Verdict policy: a clause that compares a construct with its confirmed form is a VIOLATION when the function it lies in "
+       "is unchanged or differs from its reference form in at most 4 canonical lines; in a function rewritten beyond that the clause cannot tell a new correct formulation from a wrong one and the "
+       "check exits 2 (ANALYSIS-ERROR ... cannot follow) - never 0; clauses that establish a necessary structural condition (guard facts, required raises, writers of a counter, ownership / "
+       "aliasing, cache keys, recognised wrong forms) are violations regardless (DESIGN.md section 14).")
 for _k in CLAIMS:
     CLAIMS[_k]["note"] += _NF
